@@ -8,6 +8,7 @@ import PyYetiVerif.Props.C18Prt
 import PyYetiVerif.Props.C18Cyc
 import PyYetiVerif.Props.C18Tran0
 import PyYetiVerif.Props.C18TranM
+import PyYetiVerif.Props.C18Assoc
 #print axioms PyYetiVerif.C18.base_sets_disjoint
 #print axioms PyYetiVerif.C18.superset_is_union
 #print axioms PyYetiVerif.C18.superset_is_union_bitwise
@@ -107,3 +108,11 @@ import PyYetiVerif.Props.C18TranM
 #print axioms PyYetiVerif.C18.ulvsPath_split
 #print axioms PyYetiVerif.C18.iddofG_eq_iddofOf
 #print axioms PyYetiVerif.C18.iddofG_is_gset_rows
+#print axioms PyYetiVerif.C18.dot_assoc_rect
+#print axioms PyYetiVerif.C18.dotChain_one_append
+#print axioms PyYetiVerif.C18.ShapesAgree_rect
+#print axioms PyYetiVerif.C18.ShapesAgree_chain_ok
+#print axioms PyYetiVerif.C18.formulvs_path_composes
+#print axioms PyYetiVerif.C18.ulvsLevels_complete
+#print axioms PyYetiVerif.C18.ulvsLevels_sound
+#print axioms PyYetiVerif.C18.formulvs_path_composes_of_test
